@@ -1,5 +1,6 @@
 import DadiVerif.Model.ModelDSL
 import DadiVerif.Generated.Models
+import DadiVerif.Model.ModelPairs
 /- driver ops for the library-model table (C15).  Every op runs the definitions the theorems are about
    (ModelDSL.exec / canonTr / wellFormed / normalForm / nestOK / swapOK) on the generated table.
    c15.table                      -> ok <json [[name,[paramNames],[argNames]],...]>
@@ -10,6 +11,8 @@ import DadiVerif.Generated.Models
                                                         filled in) | err arity | err stuck
    c15.norm <model> <args>        -> ok <json trace>   (normalForm) | err stuck
    c15.nest <A> <B> <args>        -> ok 1|0
+   c15.pairs                      -> ok <json [[group,[[A,B,[arg Expr…],nestOK 1|0],…]],…]>   (the hand table Model/ModelPairs.lean)
+   c15.symmetric                  -> ok <json [[A,[arg Expr…],swapOK 1|0],…]>
    c15.swap <A> <args>            -> ok 1|0
    <args>: `-` (empty) or comma separated: `name` (a parameter), `#n/d` or `#-n/d` (an exact literal).
    json: Expr = ["p",name] | ["t"] | ["lit",n,d] | ["sym",s] | ["neg",e] | [op,a,b] | ["call",f,e] | ["lam",b] | ["app",f,a] | ["tup",e…]
@@ -107,6 +110,12 @@ def handle (toks : List String) : Option String :=
       match normalForm table sigs (encodeName m) as with
       | some t => some ("ok " ++ jTr t)
       | none => some "err stuck"
+  | ["c15.pairs"] =>
+      some ("ok " ++ arr (Pairs.nesting.map fun (g, ps) => arr [q g, arr (ps.map fun p =>
+        arr [qn p.a, qn p.b, arr (p.args.map jE), if nestOK table sigs p.a p.b p.args then "1" else "0"])]))
+  | ["c15.symmetric"] =>
+      some ("ok " ++ arr (Pairs.symmetric.map fun p =>
+        arr [qn p.name, arr (p.args.map jE), if swapOK table sigs swapRules12 p.name p.args then "1" else "0"]))
   | ["c15.nest", a, b, as] => do
       let as ← parseArgs as
       some (if nestOK table sigs (encodeName a) (encodeName b) as then "ok 1" else "ok 0")
